@@ -12,7 +12,7 @@ use std::collections::HashSet;
 pub fn meta() -> Meta {
     Meta {
         level: "exploration",
-        rule: "syntax part: the text-level spaces of C01 (E-CHAR, E-TOK with non-ASCII lexemes) through both entry points; semantic part: every generated program with injected semantic errors and non-ASCII identifiers (scope histories and rule-violation programs); each input enumerated once; non-trivial = the input yields at least one diagnostic and at least one statement node; outcomes = distinct (diagnostic count, error-element) observations per tree shape",
+        rule: "syntax part: the text-level spaces of C01 (E-CHAR, E-TOK with non-ASCII lexemes) through both entry points; semantic part: every generated program with injected semantic errors and non-ASCII identifiers (scope histories and rule-violation programs); F-REWRITE: every history of 2 (thorough 3) analyses of one main program whose include files are rewritten or removed before each analysis (6 x 3 contents), each diagnostic judged against the text its file holds at that moment; each input enumerated once; non-trivial = the input yields at least one diagnostic and at least one statement node; outcomes = distinct (diagnostic count, error-element) observations per tree shape",
         assumptions: vec![
             "inputs on which parsing does not return are C01's business and are skipped here",
         ],
@@ -159,8 +159,227 @@ fn scope_history_texts(family: usize, max_len: usize) -> Vec<String> {
     out
 }
 
+// ---------------------------------------------------------------------------------------------
+// F-REWRITE: histories of analyses over include files that are rewritten in between.
+//
+// A diagnostic refers to the text its file has *now*.  Every history of `len` analyses of the
+// same main program over the same paths, with the include files a.inc / b.inc rewritten (or
+// removed) before each analysis, is run in one process; after each analysis every syntactic
+// and semantic diagnostic of every file must have a valid range in, and (semantic) be the
+// range of a node of the tree of, the text that the file holds at that moment.
+
+const A_VARIANTS: [Option<&str>; 6] = [
+    Some("int x_a = 1;\n"),
+    Some("int é_a = nosuch_a;\n"),
+    Some("/* ψ pad pad pad pad pad pad pad pad pad pad pad pad pad pad pad pad pad pad pad pad pad pad pad pad pad pad pad pad pad pad pad pad pad pad pad pad pad pad pad pad pad pad pad pad pad pad pad pad pad pad pad pad pad pad pad pad pad pad pad pad pad pad pad pad pad pad pad pad pad */\nint y_a = 2;\nint z_a = nosuch_far;\n"),
+    Some("int w_a = ;\n"),
+    Some("include \"b.inc\";\nint v_a = nosuch_v;\n"),
+    None,
+];
+const B_VARIANTS: [&str; 3] = [
+    "int x_b = 1;\n",
+    "/* pad pad pad pad pad pad pad pad pad pad pad pad pad pad pad pad pad pad pad pad pad pad pad pad pad pad pad pad pad */ int q_b = nosuch_b;\n",
+    "bit é_b = nosuch_b;\n",
+];
+const REWRITE_MAIN: &str = "int m0 = 1;\ninclude \"a.inc\";\nint é1 = nosuch_main;\n";
+
+pub struct Rewrites {
+    pub len: usize,
+}
+
+fn node_ranges(text: &str) -> HashSet<(usize, usize)> {
+    match subject::parse(text) {
+        Ok(p) => p.syntax_node().descendants().map(|n| (usize::from(n.text_range().start()), usize::from(n.text_range().end()))).collect(),
+        Err(_) => HashSet::new(),
+    }
+}
+
+type Current = std::collections::HashMap<String, String>;
+
+/// Syntactic diagnostics and error elements of one file against the text it holds now.
+fn rewrite_file<T: SourceTrait>(sf: &T, cur: &Current, out: &mut Vec<(String, String)>, ndiag: &mut usize) {
+    let name = sf.file_path().file_name().map(|n| n.to_string_lossy().to_string()).unwrap_or_default();
+    if let Some(ast) = sf.syntax_ast() {
+        match cur.get(&name) {
+            Some(text) => {
+                *ndiag += ast.errors().len();
+                if let Err(m) = check_ranges(ast.errors(), text, &name) {
+                    out.push(("span".into(), m));
+                }
+                if ast.have_parse() && ast.errors().is_empty() && subject::has_error_element(&ast.syntax_node()) {
+                    out.push(("error_node_has_diagnostic".into(), format!("{}: the tree contains an ERROR node or token but no diagnostic was reported", name)));
+                }
+            }
+            None => {
+                if !ast.errors().is_empty() {
+                    out.push(("span".into(), format!("{}: {} syntactic diagnostics for a file that does not exist now", name, ast.errors().len())));
+                }
+            }
+        }
+    }
+    for inc in sf.included() {
+        rewrite_file(inc, cur, out, ndiag);
+    }
+}
+
+/// Semantic diagnostics, list by list, against the text the tagged file holds now.
+fn rewrite_lists(l: &SemanticErrorList, cur: &Current, out: &mut Vec<(String, String)>, ndiag: &mut usize) {
+    let name = l.source_file_path().file_name().map(|n| n.to_string_lossy().to_string()).unwrap_or_default();
+    match cur.get(&name) {
+        Some(text) => {
+            let nodes = node_ranges(text);
+            for e in l.iter() {
+                *ndiag += 1;
+                let r = e.range();
+                let (s, t) = (usize::from(r.start()), usize::from(r.end()));
+                if s > t || t > text.len() {
+                    out.push(("semantic_span".into(), format!("{:?} in {} has range {}..{} outside the file's text of {} bytes", e.kind(), name, s, t, text.len())));
+                } else if !text.is_char_boundary(s) || !text.is_char_boundary(t) {
+                    out.push(("semantic_span".into(), format!("{:?} in {} has range {}..{} not on character boundaries", e.kind(), name, s, t)));
+                } else if !nodes.contains(&(s, t)) {
+                    out.push(("semantic_span".into(), format!("{:?} in {} has range {}..{} (`{}`) which is not the range of any node of the tree of the file's text", e.kind(), name, s, t, show(&text[s..t]))));
+                }
+            }
+        }
+        None => {
+            for e in l.iter() {
+                *ndiag += 1;
+                out.push(("semantic_span".into(), format!("{:?} is filed under {}, which has no text now", e.kind(), name)));
+            }
+        }
+    }
+    for inc in l.include_errors() {
+        rewrite_lists(inc, cur, out, ndiag);
+    }
+}
+
+fn rewrite_inspect<T: SourceTrait>(sf: &T, errs: &SemanticErrorList, cur: &Current) -> (Vec<(String, String)>, usize) {
+    let mut out = Vec::new();
+    let mut ndiag = 0usize;
+    rewrite_file(sf, cur, &mut out, &mut ndiag);
+    rewrite_lists(errs, cur, &mut out, &mut ndiag);
+    (out, ndiag)
+}
+
+impl Rewrites {
+    fn steps(&self) -> usize {
+        A_VARIANTS.len() * B_VARIANTS.len()
+    }
+    fn root(tag: u64) -> std::path::PathBuf {
+        std::path::PathBuf::from(format!("{}/.work/fs-{}/rewrite{}", crate::verif_root(), std::process::id(), tag))
+    }
+    /// Runs one history; `hist[i]` = a_variant * |B| + b_variant.
+    fn run_history(&self, hist: &[usize], file_entry: bool, tag: u64, ctx: &mut Ctx) {
+        use oq3_semantics::syntax_to_semantics::{parse_source_file_with_search, parse_source_string_with_path_search};
+        let case = serde_json::json!({"history": hist, "file_entry": file_entry,
+            "witness": format!("rewrites {:?} entry={}", hist.iter().map(|h| format!("a{}b{}", h / B_VARIANTS.len(), h % B_VARIANTS.len())).collect::<Vec<_>>(), if file_entry { "file" } else { "string" })});
+        if !ctx.begin(|| case.clone()) {
+            return;
+        }
+        let wit = case["witness"].as_str().unwrap_or("").to_string();
+        let root = Self::root(tag);
+        let _ = std::fs::remove_dir_all(&root);
+        if std::fs::create_dir_all(&root).is_err() {
+            ctx.count("fs_errors", 1);
+            return;
+        }
+        let root_text = root.display().to_string();
+        let main_path = root.join("main.qasm");
+        let mut issues: Vec<(String, String)> = Vec::new();
+        let mut ndiag_last = 0usize;
+        for (step, h) in hist.iter().enumerate() {
+            let (av, bv) = (h / B_VARIANTS.len(), h % B_VARIANTS.len());
+            let mut current: Current = Current::new();
+            match A_VARIANTS[av] {
+                Some(t) => {
+                    let _ = std::fs::write(root.join("a.inc"), t);
+                    current.insert("a.inc".into(), t.to_string());
+                }
+                None => {
+                    let _ = std::fs::remove_file(root.join("a.inc"));
+                }
+            }
+            let _ = std::fs::write(root.join("b.inc"), B_VARIANTS[bv]);
+            current.insert("b.inc".into(), B_VARIANTS[bv].to_string());
+            let _ = std::fs::write(&main_path, REWRITE_MAIN);
+            current.insert("main.qasm".into(), REWRITE_MAIN.to_string());
+            let (mp, dirs) = (main_path.clone(), vec![root.clone()]);
+            let cur = current.clone();
+            let r = catch(move || {
+                if file_entry {
+                    let res = parse_source_file_with_search(&mp, Some(dirs.as_slice()));
+                    rewrite_inspect(res.syntax_result(), res.semantic_errors(), &cur)
+                } else {
+                    let res = parse_source_string_with_path_search(REWRITE_MAIN, Some("main.qasm"), Some(dirs.as_slice()));
+                    rewrite_inspect(res.syntax_result(), res.semantic_errors(), &cur)
+                }
+            });
+            match r {
+                Err(_) => {
+                    ctx.count("skipped_analysis_panics", 1);
+                    break;
+                }
+                Ok((out, nd)) => {
+                    ndiag_last = nd;
+                    for (rule, m) in out {
+                        issues.push((rule, format!("after analysis {} of the history: {}", step + 1, m)));
+                    }
+                }
+            }
+        }
+        let _ = std::fs::remove_dir_all(&root);
+        let _ = std::fs::remove_dir(root.parent().unwrap_or(&root));
+        ctx.outcome(fnv_mix(0x12e, fnv_mix(*hist.last().unwrap_or(&0) as u64, ndiag_last.min(9) as u64)));
+        if hist.len() >= 2 && hist.windows(2).any(|w| w[0] != w[1]) && ndiag_last >= 1 {
+            ctx.mark_nontrivial(fnv_str(&wit));
+        }
+        for (rule, m) in issues {
+            let locus = m.split(": ").nth(1).unwrap_or("").split(' ').next().unwrap_or("").to_string();
+            ctx.fail(Failure { rule, witness: wit.clone(), locus: format!("{} | rewritten include", locus), detail: m.replace(&root_text, "<tree>"), case: case.clone() });
+        }
+    }
+}
+
+impl Space for Rewrites {
+    fn name(&self) -> String {
+        format!("F-REWRITE/len={}", self.len)
+    }
+    fn describe(&self) -> serde_json::Value {
+        serde_json::json!({"space": "F-REWRITE", "history_length": self.len, "a_variants": A_VARIANTS.len(), "b_variants": B_VARIANTS.len(),
+            "entry_points": ["parse_source_string_with_path_search", "parse_source_file_with_search"],
+            "histories": (self.steps() as u64).pow(self.len as u32) * 2})
+    }
+    fn num_blocks(&self) -> u64 {
+        self.steps() as u64
+    }
+    fn run_block(&self, block: u64, ctx: &mut Ctx) {
+        // block = first step of the history
+        let n = self.steps();
+        let total = n.pow(self.len as u32 - 1);
+        for rest in 0..total {
+            let mut hist = vec![block as usize];
+            let mut x = rest;
+            for _ in 1..self.len {
+                hist.push(x % n);
+                x /= n;
+            }
+            for file_entry in [false, true] {
+                self.run_history(&hist, file_entry, block, ctx);
+            }
+        }
+    }
+    fn replay(&self, case: &serde_json::Value, ctx: &mut Ctx) {
+        let hist: Vec<usize> = case["history"].as_array().map(|a| a.iter().filter_map(|v| v.as_u64().map(|x| x as usize)).collect()).unwrap_or_default();
+        if hist.is_empty() || hist.iter().any(|h| *h >= self.steps()) {
+            return;
+        }
+        self.run_history(&hist, case["file_entry"].as_bool().unwrap_or(false), 1_000_000, ctx);
+    }
+}
+
 pub fn spaces(tier: Tier, _seed: u64) -> Vec<Box<dyn Space>> {
     let mut v = c01::text_spaces(tier, oracle);
+    v.push(Box::new(Rewrites { len: if tier.is_thorough() { 3 } else { 2 } }));
     // semantic diagnostics: rule-violation programs and scope histories, with non-ASCII
     // identifiers, strings and comments so that byte offsets differ from character offsets
     let pre = format!("/* ψ😀 */ int é变 = 1; bit[4] ça = \"0101\";\n{}", crate::props::c13::prelude());
